@@ -134,9 +134,14 @@ def input_class(failing, exercised):
     """failing / exercised: lists of descriptor dicts (ic, flags).  -> stable text"""
     kf = sorted(set(d["ic"] for d in failing))
     ke = sorted(set(d["ic"] for d in exercised))
-    txt = "any-IC" if (kf == ke and len(ke) > 1) else "+".join(kf)
+    if kf == ke and "rho" in kf and len(kf) > 1:
+        txt = "any-IC"
+    elif kf == ["explicit", "explicit+recovered"]:
+        txt = "explicit"                  # explicit sets, with and without initially recovered nodes
+    else:
+        txt = "/".join(kf)
     pool = [d for d in exercised if d["ic"] in kf]
-    for q in ("full-data", "plain", "isolated-node", "regular", "tau=0", "gamma=0", "tmin>0"):
+    for q in ("full-data", "isolated-node", "regular", "tau=0", "gamma=0", "tmin>0"):
         if all(q in d["flags"] for d in failing) and not all(q in d["flags"] for d in pool):
             txt += "," + q
     return txt
@@ -229,11 +234,30 @@ def main(argv=None):
 
     t0 = time.time()
     # ---- TLC: InitCond over the whole family, CompartmentFlow exhaustive ------------------------------
-    scen_all, res_a = ci.run_initcond(fam["maxn"], fam["rhos"])
+    box = {}
+
+    def _bg(key, fn, *a, **k):
+        try:
+            box[key] = fn(*a, **k)
+        except Exception as ex:
+            box[key] = ex
+    import threading
+    th = [threading.Thread(target=_bg, args=("all", ci.run_initcond, fam["maxn"], fam["rhos"]), kwargs={"workers": 12}),
+          threading.Thread(target=_bg, args=("fix", ci.run_initcond, 2, fam["fixed_rhos"]),
+                           kwargs={"fixed": FIXED, "max_inf": 1, "max_rec": 1, "workers": 4}),
+          threading.Thread(target=_bg, args=("cf", ct.exhaustive_reference, 4, 3), kwargs={"workers": 2})]
+    for t_ in th:
+        t_.start()
+    for t_ in th:
+        t_.join()
+    for v in box.values():
+        if isinstance(v, Exception):
+            raise v
+    scen_all, res_a = box["all"]
     chk.add_tlc("InitCond all labelled graphs on 2..%d nodes, rho in %s" % (fam["maxn"], fam["rhos"]), res_a)
-    scen_fix, res_f = ci.run_initcond(2, fam["fixed_rhos"], fixed=FIXED, max_inf=1, max_rec=1)
+    scen_fix, res_f = box["fix"]
     chk.add_tlc("InitCond fixed graphs (5-6 nodes), <=1 infected, <=1 recovered", res_f)
-    res_c = ct.exhaustive_reference(4, 3)
+    res_c = box["cf"]
     chk.add_tlc("CompartmentFlow exhaustive MaxPop=4 MaxRows=3", res_c)
     for nm, res in (("InitCond", res_a), ("InitCond(fixed)", res_f), ("CompartmentFlow", res_c)):
         if res.violation:
@@ -278,6 +302,7 @@ def main(argv=None):
     fails = {}          # (entry, failure class) -> list of (task index, text)
     traces, trace_task = [], []
     entries_called = set()
+    noted = set()
     for ti, (task, r) in enumerate(zip(tasks, results)):
         name = task[0]
         if r.get("machinery"):
@@ -290,8 +315,10 @@ def main(argv=None):
             continue
         for fc, what in r["problems"]:
             fails.setdefault((name, fc), []).append((ti, what))
-        for n_ in r["notes"]:
-            chk.note(n_) if len(chk.notes) < 200 else None
+        for nk, n_ in r["notes"]:
+            if nk not in noted:
+                noted.add(nk)
+                chk.note(n_)
         if r["trace"] is not None:
             traces.append(r["trace"])
             trace_task.append(ti)
@@ -302,7 +329,7 @@ def main(argv=None):
     # ---- TLC: batched trace validation --------------------------------------------------------------------
     can = canaries(traces)
     batch = traces + can
-    rejects, tres = ct.validate(batch, chunks=8 if chk.tier == "quick" else 12, workers=4)
+    rejects, tres = ct.validate(batch, chunks=2, workers=8)
     agg = tlc.TLCResult()
     for r_ in tres:
         agg.distinct += r_.distinct
@@ -344,7 +371,7 @@ def main(argv=None):
         ti = trace_task[k]
         t = traces[k]
         nan = any(min(r) <= ci.BAD for r in t["rows"])
-        fc = "trace:" + "+".join(cl) + ("(non-finite)" if nan else "")
+        fc = "trace:non-finite" if nan else "trace:" + "+".join(cl)
         lo = max(0, row - 2)
         fails.setdefault((tasks[ti][0], fc), []).append(
             (ti, "%s: returned (t,S,I,R) rejected by TraceCompartmentFlow at row %d (1-based), failed clause(s) %s; "
